@@ -152,7 +152,7 @@ func (ex *Exec) havocElemsRange(st *State, arr *Term, et types.Type, lo, hi *Ter
 		n, s := heapName(l.sort)
 		old := st.heap.array(n, s)
 		nw := Fresh(n+"@app", s)
-		ex.fact(nil, Forall([]*Term{p}, Or(rootedAtElemRange(p, arr, lo, hi), SameVal(Select(nw, p), Select(old, p)))))
+		ex.fact(nil, Forall([]*Term{p}, Or(elemLeafOf(p, arr, et, l.sort, lo, hi), SameVal(Select(nw, p), Select(old, p)))))
 		st.heap.set(n, nw)
 	}
 }
